@@ -249,32 +249,15 @@ fn fault_run(c: &C13Case, k: u64, n: u64, case_hash: u64, rep: &mut CaseReport) 
 /// growth to 7 MB itself is not enumerated); after the retry the history continues across
 /// the next FAT-sector boundaries, so state left behind by the failed call meets the next
 /// table growth. Same oracle as the generated workloads.
-fn difat_boundary_faults(ctx: &Ctx, ev: &mut Value) -> Option<Violation> {
-    let chunk = |seed: u8| WOp::WriteAll { slot: 0, data: DataSpec { len: 60_000, seed } };
-    let script = vec![
-        WOp::CreateStream { slot: 0, name: 0 },
-        WOp::WriteAll { slot: 0, data: DataSpec { len: 3000, seed: 1 } },
-        WOp::Flush { slot: 0 },
-        WOp::SetLen { slot: 0, len: LenSpec::Abs(7_020_000) },
-        WOp::SeekEnd { slot: 0 },
-        chunk(2),
-        WOp::Flush { slot: 0 },
-        chunk(3),
-        WOp::Flush { slot: 0 },
-        chunk(4),
-        chunk(5),
-        WOp::Flush { slot: 0 },
-        WOp::Close { slot: 0 },
-        WOp::CfbFlush,
-    ];
-    let first_enumerated_op = 4;
-    let mut total = 0u64;
-    let mut positions_total = 0u64;
-    for max_buf in [Some(4096u32), None] {
-        let c = C13Case { version: 3, max_buf, script: script.clone() };
-        let what = format!("V3 file grown across the 110th-112th FAT sector (first DIFAT sector) with a write-side fault at every underlying call of the crossing writes, max_buf {:?}", max_buf);
-        let case_hash = fnv64(serde_json::to_string(&c).unwrap_or_default().as_bytes());
-        let mut rep = CaseReport { evaluations: 0, ..CaseReport::default() };
+/// Runs `c` once without faults (recording which write-side calls are the library's own and
+/// which of them write into the header sector), then once per selected position from the
+/// start of op `first_enumerated_op` on: all of them when `dense`, otherwise those within 25
+/// library calls of a header write plus every 40th. Returns the number of executions.
+fn scenario_fault_runs(what: &str, tag: &str, c: &C13Case, first_enumerated_op: usize, dense: bool) -> Result<(u64, u64), Violation> {
+    let mut rep = CaseReport { evaluations: 0, ..CaseReport::default() };
+    let positions_total;
+    {
+        let case_hash = fnv64(serde_json::to_string(c).unwrap_or_default().as_bytes());
         let ctl = new_ctl(FaultDomain::WriteSide);
         {
             // faults "enabled" with no position set: the backend records where a fault could fire
@@ -285,7 +268,7 @@ fn difat_boundary_faults(ctx: &Ctx, ev: &mut Value) -> Option<Violation> {
         let mut trace = Vec::new();
         let base = match run_write_script(c.version, c.max_buf, &c.script, &ctl, &mut trace) {
             Ok(s) => s,
-            Err(f) => return Some(Violation { key: f.key.replace("write_fault|", "no_fault|"), detail: format!("[{}] fault-free run: {}", what, f.detail), case: serde_json::json!({"scenario": what}), trace }),
+            Err(f) => return Err(Violation { key: f.key.replace("write_fault|", "no_fault|"), detail: format!("[{}] fault-free run: {}", what, f.detail), case: serde_json::json!({"scenario": what}), trace }),
         };
         let n = base.n_calls;
         let (live, header_writes) = {
@@ -306,14 +289,14 @@ fn difat_boundary_faults(ctx: &Ctx, ev: &mut Value) -> Option<Violation> {
                 let hi = (i + 25).min(live.len() - 1);
                 header_writes.iter().any(|&h| h >= live[lo] && h <= live[hi])
             };
-            if ctx.tier == Tier::Thorough || near || i % 40 == 0 {
+            if dense || near || i % 40 == 0 {
                 positions.insert(k);
             }
         }
         if std::env::var("VERIF_DEBUG_C13").is_ok() {
             eprintln!("base run: {} calls, {} by the library from op {}, header writes at {:?}, {} positions", n, live.len(), first_enumerated_op, header_writes, positions.len());
         }
-        positions_total += positions.len() as u64;
+        positions_total = positions.len() as u64;
         let cap = env_u64("VERIF_C13_DIFAT_MAXPOS", u64::MAX) as usize;
         let positions: Vec<u64> = positions.into_iter().take(cap).collect();
         // the executions are independent of each other: spread over threads, lowest failing position wins
@@ -321,7 +304,7 @@ fn difat_boundary_faults(ctx: &Ctx, ev: &mut Value) -> Option<Violation> {
         let results: Vec<(u64, Option<(u64, Fail, Vec<String>)>)> = std::thread::scope(|sc| {
             let hs: Vec<_> = (0..nthreads)
                 .map(|t| {
-                    let (c, positions) = (&c, &positions);
+                    let (c, positions) = (c, &positions);
                     sc.spawn(move || {
                         crate::lockwatch::install();
                         let mut rep = CaseReport { evaluations: 0, ..CaseReport::default() };
@@ -351,11 +334,86 @@ fn difat_boundary_faults(ctx: &Ctx, ev: &mut Value) -> Option<Violation> {
             }
         }
         if let Some((_, f, trace)) = worst {
-            return Some(Violation { key: format!("{}|difat_boundary", f.key), detail: format!("[{}] {}", what, f.detail), case: serde_json::json!({"scenario": what}), trace });
+            return Err(Violation { key: format!("{}|{}", f.key, tag), detail: format!("[{}] {}", what, f.detail), case: serde_json::json!({"scenario": what}), trace });
         }
-        total += rep.evaluations + 1;
+    }
+    Ok((rep.evaluations + 1, positions_total))
+}
+
+fn difat_boundary_faults(ctx: &Ctx, ev: &mut Value) -> Option<Violation> {
+    let chunk = |seed: u8| WOp::WriteAll { slot: 0, data: DataSpec { len: 60_000, seed } };
+    let script = vec![
+        WOp::CreateStream { slot: 0, name: 0 },
+        WOp::WriteAll { slot: 0, data: DataSpec { len: 3000, seed: 1 } },
+        WOp::Flush { slot: 0 },
+        WOp::SetLen { slot: 0, len: LenSpec::Abs(7_020_000) },
+        WOp::SeekEnd { slot: 0 },
+        chunk(2),
+        WOp::Flush { slot: 0 },
+        chunk(3),
+        WOp::Flush { slot: 0 },
+        chunk(4),
+        chunk(5),
+        WOp::Flush { slot: 0 },
+        WOp::Close { slot: 0 },
+        WOp::CfbFlush,
+    ];
+    let first_enumerated_op = 4;
+    let mut total = 0u64;
+    let mut positions_total = 0u64;
+    for max_buf in [Some(4096u32), None] {
+        let c = C13Case { version: 3, max_buf, script: script.clone() };
+        let what = format!("V3 file grown across the 110th-112th FAT sector (first DIFAT sector) with a write-side fault at every underlying call of the crossing writes, max_buf {:?}", max_buf);
+        match scenario_fault_runs(&what, "difat_boundary", &c, first_enumerated_op, ctx.tier == Tier::Thorough) {
+            Ok((e, p)) => {
+                total += e;
+                positions_total += p;
+            }
+            Err(v) => return Some(v),
+        }
     }
     ev["coverage"]["difat_boundary_fault_runs"] = serde_json::json!({"executions": total, "fault_positions": positions_total});
+    // directory growth: in version 4 the header counts the directory sectors; the 33rd and the
+    // 65th entry (root included) each need a new directory sector. 70 small streams are
+    // created; every library write-side call of the creations around both boundaries fails in
+    // turn (all positions: the file is small), then the history goes on. Version 3 likewise
+    // (a new directory sector every 4 entries; the header field stays 0).
+    let mut dir_total = 0u64;
+    let mut dir_pos = 0u64;
+    for version in [4u8, 3u8] {
+        let mut script = Vec::new();
+        for i in 0..70u8 {
+            script.push(WOp::CreateStream { slot: 0, name: 8 + i });
+            script.push(WOp::WriteAll { slot: 0, data: DataSpec { len: if i % 9 == 0 { 4200 } else { 90 }, seed: i } });
+            script.push(WOp::Close { slot: 0 });
+            if i % 16 == 15 {
+                script.push(WOp::CfbFlush);
+            }
+        }
+        script.push(WOp::Walk);
+        script.push(WOp::CfbFlush);
+        let c = C13Case { version, max_buf: None, script };
+        let what = format!("V{} file: 70 streams created one after the other (directory grows across the 33rd and 65th entry) with a write-side fault at the library's calls", version);
+        // two windows: creations 29..35 and 61..67 (ops are 3 per creation plus a flush every 16)
+        for (lo, tagw) in [(29usize, "a"), (61usize, "b")] {
+            let first_op = lo * 3 + lo / 16;
+            let mut cw = c.clone();
+            // the window ends 6 creations later: cut the script there plus a tail of 3 creations, walk and flush
+            let keep = (lo + 9) * 3 + (lo + 9) / 16;
+            cw.script.truncate(keep.min(cw.script.len()));
+            cw.script.push(WOp::Walk);
+            cw.script.push(WOp::CfbFlush);
+            match scenario_fault_runs(&format!("{} (window {})", what, tagw), "dir_growth", &cw, first_op, true) {
+                Ok((e, p)) => {
+                    dir_total += e;
+                    dir_pos += p;
+                }
+                Err(v) => return Some(v),
+            }
+        }
+    }
+    ev["coverage"]["dir_growth_fault_runs"] = serde_json::json!({"executions": dir_total, "fault_positions": dir_pos});
+    total += dir_total;
     if let Some(e) = ev["coverage"]["evaluations"].as_u64() {
         ev["coverage"]["evaluations"] = serde_json::json!(e + total);
     }
@@ -374,7 +432,7 @@ pub fn def() -> PropDef {
     PropDef {
         id: "C13",
         level: "fault_enumeration",
-        rule: "mutating workload of 5-22 calls on a fresh file (create/remove storages and streams in a fixed 8-name namespace, write/write_all in chunks around the buffer capacity through up to 2 handles, seek, set_len, read, flush, close, set_state_bits, CompoundFile::flush; buffer sizes 1024/4096/default, both versions); the fault-free run counts N underlying write+seek+flush calls, then one run per k in [0,N) with call k failing (workloads with N > 1000: a stride of N/1000 plus the first three and last two underlying calls of every API call; ten error kinds in rotation, with and without side effects of the failing call); after an Err the call is retried once. Oracle: (a) the API call during which the fault fired returns Err (Drop exempt, as documented); (b) nothing panics and the worker's CPU budget holds; (c) whenever Stream::flush or CompoundFile::flush returns Ok the underlying writer was flushed, and after Stream::flush a fresh handle reads back every byte accepted by earlier write calls on that handle at its offset (read-back Err is also a violation); the raw bytes reopened show them too if they open (not judged once a fault has fired inside a create/remove call: the directory in the file may then still link an entry that is gone in memory); the bytes a successful flush made durable are read again after every later CompoundFile::flush and at the end - unless a call touched that stream - and must be unchanged (a read error is tolerated); ranges gained by set_len read as zero. evaluations = executions; a non-trivial item = an execution where the fault hit a call on a handle holding accepted-but-unflushed bytes and a later flush on that handle returned Ok; distinct = distinct (case, k).",
+        rule: "mutating workload of 5-22 calls on a fresh file (create/remove storages and streams in a fixed 8-name namespace, write/write_all in chunks around the buffer capacity through up to 2 handles, seek, set_len, read, flush, close, set_state_bits, CompoundFile::flush; buffer sizes 1024/4096/default, both versions); the fault-free run counts N underlying write+seek+flush calls, then one run per k in [0,N) with call k failing (workloads with N > 1000: a stride of N/1000 plus the first three and last two underlying calls of every API call; ten error kinds in rotation, with and without side effects of the failing call); after an Err the call is retried once. Oracle: (a) the API call during which the fault fired returns Err (Drop exempt, as documented); (b) nothing panics and the worker's CPU budget holds; (c) whenever Stream::flush or CompoundFile::flush returns Ok the underlying writer was flushed, and after Stream::flush a fresh handle reads back every byte accepted by earlier write calls on that handle at its offset (read-back Err is also a violation); the raw bytes reopened show them too if they open (not judged once a fault has fired inside a create/remove call: the directory in the file may then still link an entry that is gone in memory); the bytes a successful flush made durable are read again after every later CompoundFile::flush and at the end - unless a call touched that stream - and must be unchanged (a read error is tolerated); ranges gained by set_len read as zero. Scenario step (same oracle): a version-3 stream is grown to just below the capacity of 109 FAT sectors and then written across the 110th-112th FAT sector (first DIFAT sector); one execution per library write-side call within 25 calls of a header update and every 40th elsewhere (thorough: every call), each with retry and continued growth; and 70 streams created one after the other in a version-4 and a version-3 file with a fault at every library write-side call of the creations around the 33rd and the 65th directory entry (new directory sector, header count in V4). evaluations = executions; a non-trivial item = an execution where the fault hit a call on a handle holding accepted-but-unflushed bytes and a later flush on that handle returned Ok; distinct = distinct (case, k).",
         assumptions: &["single faults are enumerated exhaustively per workload; workloads are sampled", "offsets truncated (or possibly truncated by a failed set_len) are dropped from the expectation"],
         quick_cases: 12,
         thorough_cases: 200,
